@@ -2,6 +2,7 @@
 import subprocess, re
 t = subprocess.run(["python3", "/verif/tools_seed_table.py"], capture_output=True, text=True).stdout
 s = open("/verif/DESIGN.md").read()
-s = re.sub(r"<!-- SEEDED-TABLE-BEGIN -->.*<!-- SEEDED-TABLE-END -->", "<!-- SEEDED-TABLE-BEGIN -->\n" + t.strip() + "\n<!-- SEEDED-TABLE-END -->", s, flags=re.S)
+b, e = "<!-- SEEDED-TABLE-BEGIN -->", "<!-- SEEDED-TABLE-END -->"
+s = s[: s.index(b) + len(b)] + "\n" + t.strip() + "\n" + s[s.index(e):]
 open("/verif/DESIGN.md", "w").write(s)
 print("table rows:", t.count("\n") - 2)
